@@ -274,7 +274,8 @@ class C01(Check):
     explanation = ("Per model definition: the symbolic getters (translated sympy->SMT by symbol name) and the numeric evaluators "
                    "(the real add_func/compileExprAndFormat/_getEvalParam path executed on z3-backed numbers) are compared with an "
                    "independent oracle (own expression trees, own derived-parameter substitution) by z3 validity queries over ALL "
-                   "states, times and parameter values.")
+                   "states, times and parameter values.  Also: a family of models whose identifiers collide with loop indices and sympy singletons/functions; and the default Cython back-end "
+                   "by translating the C it generates into SMT terms (cython[...] units).")
     assumptions = ["floats modelled as reals; denominators non-zero", "numeric evaluators are executed symbolically through the lambdify back-end (PyGOM's fall-back); the default Cython back-end is covered by translating the C it generates to SMT (cython[...] units: one definition quick, seven thorough) and tying the shared object to that C at a concrete point; gcc and Cython themselves are trusted"]
     stubs = []
 
